@@ -192,7 +192,8 @@ def step (s : State) : Ev → Except String State
       | .sawStatus v => if isQuietStatus v then .ok { s with wph := upd s.wph g (if c > 0 then .willPark else .willReturn) } else .error "cur loaded before Len() on a running worker"
       | _ => .error "cur loaded out of sequence in condition()"
   | .wPark g =>
-    if s.mx != some g then .error "Cond.Wait without holding w.mx"
+    if isDisp s g then .error "Cond.Wait by the event loop goroutine"
+    else if s.mx != some g then .error "Cond.Wait without holding w.mx"
     else if s.wph g != .willPark then .error "Cond.Wait although condition() was false"
     else .ok { s with mx := none, wph := upd s.wph g .parked, nParked := s.nParked + 1 }
   | .wWake g =>
